@@ -2,6 +2,7 @@
 package main
 
 import (
+	"bufio"
 	"bytes"
 	"encoding/hex"
 	"encoding/json"
@@ -16,6 +17,7 @@ import (
 	"runtime"
 	"sort"
 	"strings"
+	"syscall"
 	"time"
 
 	"github.com/icon-project/goloop/common/codec"
@@ -817,94 +819,121 @@ func corpusDir() string {
 
 // ---------------------------------------------------------------------------
 // crash scan: a fatal runtime error (out of memory on a hostile size, stack exhaustion)
-// cannot be recovered in-process.  The generation is therefore first replayed in a child
-// process that announces every input on stderr before touching it; an input on which the
-// child dies is reported as a violation and not decoded again by the parent.
+// cannot be recovered in-process.  Every batch of malformed inputs is therefore first
+// decoded by a child process ("probe-batch") that announces the index of each input before
+// touching it; an input on which the child dies is reported as a violation and is not
+// decoded again by the parent.  The child is restarted behind each crashing input.
 // ---------------------------------------------------------------------------
 
-var scanning = os.Getenv("C23_SCAN") != ""
-var crashers = map[string]bool{}
-
-func announce(key string) {
-	if scanning {
-		fmt.Fprintf(os.Stderr, "SCAN %s\n", key)
-	}
+type malItem struct {
+	kind string // distribution label
+	mode string // "dec" or "typed"
+	name string // target type name / typed mode
+	b    []byte
 }
 
-func crashScan(c *hxlib.Ctx) {
-	if scanning {
-		for _, k := range strings.Split(os.Getenv("C23_SKIP"), ",") {
-			if k != "" {
-				crashers[k] = true
-			}
-		}
-		return
-	}
+// returns the indices on which the child died and the number of items scanned (the scan
+// stops after severeCap crashes)
+func scanBatch(c *hxlib.Ctx, items []malItem) (map[int]bool, int) {
+	crashed := map[int]bool{}
 	exe, err := os.Executable()
 	if err != nil {
 		c.Note("crash scan skipped: %v", err)
-		return
+		return crashed, len(items)
 	}
-	for round := 0; round < 4; round++ {
-		tmp, _ := os.MkdirTemp("", "c23scan")
-		cmd := exec.Command(exe, "gen", "-seed", fmt.Sprint(c.Seed), "-tier", c.Tier, "-out", tmp)
-		var keys []string
-		for k := range crashers {
-			keys = append(keys, k)
+	start := 0
+	for start < len(items) {
+		var in bytes.Buffer
+		for _, it := range items[start:] {
+			fmt.Fprintf(&in, "%s %s %s\n", it.mode, it.name, hex.EncodeToString(it.b))
 		}
-		cmd.Env = append(os.Environ(), "C23_SCAN=1", "C23_SKIP="+strings.Join(keys, ","))
-		var errb bytes.Buffer
-		cmd.Stderr = &errb
-		cmd.Stdout = nil
+		cmd := exec.Command(exe, "probe-batch")
+		cmd.Stdin = &in
+		var out bytes.Buffer
+		cmd.Stdout = &out
 		runErr := cmd.Run()
-		os.RemoveAll(tmp)
-		code := 0
-		if ee, ok := runErr.(*exec.ExitError); ok {
-			code = ee.ExitCode()
-		} else if runErr != nil {
+		if runErr == nil {
+			return crashed, len(items)
+		}
+		if _, ok := runErr.(*exec.ExitError); !ok {
 			c.Note("crash scan could not run: %v", runErr)
-			return
+			return crashed, len(items)
 		}
-		if code == 0 || code == 3 {
-			c.Note("crash scan: child finished (rc=%d), %d crashing input(s)", code, len(crashers))
-			return
+		lines := strings.Fields(out.String())
+		if len(lines) == 0 {
+			c.Note("crash scan: child died before the first input (%v)", runErr)
+			return crashed, len(items)
 		}
-		last := ""
-		for _, ln := range strings.Split(errb.String(), "\n") {
-			if strings.HasPrefix(ln, "SCAN ") {
-				last = strings.TrimPrefix(ln, "SCAN ")
-			}
+		var last int
+		fmt.Sscan(lines[len(lines)-1], &last)
+		crashed[start+last] = true
+		start += last + 1
+		if len(crashed) >= severeCap {
+			return crashed, start
 		}
-		if last == "" || crashers[last] {
-			c.Note("crash scan: child died (rc=%d) without a new input to blame", code)
-			return
+	}
+	return crashed, len(items)
+}
+
+func probeBatch() {
+	runtime.GOMAXPROCS(1)
+	sc := bufio.NewScanner(os.Stdin)
+	sc.Buffer(make([]byte, 1<<20), 1<<26)
+	for i := 0; sc.Scan(); i++ {
+		f := strings.Fields(sc.Text())
+		if len(f) < 2 {
+			continue
 		}
-		crashers[last] = true
+		hx := ""
+		if len(f) > 2 {
+			hx = f[2]
+		}
+		b, _ := hex.DecodeString(hx)
+		fmt.Fprintf(os.Stdout, "%d\n", i)
+		if f[0] == "typed" {
+			oracleTypedDec(f[1], b)
+		} else if t, ok := targetByName[f[1]]; ok {
+			oracleDec(t, b, false)
+		}
 	}
 }
 
 const crashMsg = "crashes the process (fatal runtime error: out of memory / stack exhaustion — not a recoverable panic)"
 
-func emitDec(c *hxlib.Ctx, kind string, t target, b []byte) bool {
-	key := "dec|" + t.name + "|" + hex.EncodeToString(b)
-	if crashers[key] {
-		if !scanning {
-			c.Emit(hxlib.Case{Kind: kind + "/crash", Key: key,
-				Input:      map[string]interface{}{"t": "dec", "v": decIn{t.name, hex.EncodeToString(b)}},
-				Nontrivial: true, OracleErr: fmt.Sprintf("decoding %s into %s: ", trunc(b), t.name) + crashMsg})
+func emitCrash(c *hxlib.Ctx, it malItem) {
+	severe++
+	if it.mode == "typed" {
+		c.Emit(hxlib.Case{Kind: "typed-" + it.kind + "/crash", Key: "typed|" + it.name + "|" + hex.EncodeToString(it.b),
+			Input:      map[string]interface{}{"t": "typed", "v": typedIn{Mode: it.name, Hex: hex.EncodeToString(it.b)}},
+			Nontrivial: true, OracleErr: fmt.Sprintf("typed(%s) decoding %s: ", it.name, trunc(it.b)) + crashMsg})
+		return
+	}
+	c.Emit(hxlib.Case{Kind: it.kind + "/crash", Key: "dec|" + it.name + "|" + hex.EncodeToString(it.b),
+		Input:      map[string]interface{}{"t": "dec", "v": decIn{it.name, hex.EncodeToString(it.b)}},
+		Nontrivial: true, OracleErr: fmt.Sprintf("decoding %s into %s: ", trunc(it.b), it.name) + crashMsg})
+}
+
+// scan a batch in the child, then decode it in-process (skipping what killed the child)
+func runBatch(c *hxlib.Ctx, items []malItem) {
+	crashed, scanned := scanBatch(c, items)
+	for i, it := range items {
+		if i >= scanned || severe >= severeCap {
+			c.Note("malformed stream cut after %d of %d inputs: %d crashes/hangs/giant allocations/panics", i, len(items), severe)
+			return
 		}
-		severe++
-		return false
+		if crashed[i] {
+			emitCrash(c, it)
+			continue
+		}
+		if it.mode == "typed" {
+			emitTypedDec(c, it.kind, it.name, it.b)
+		} else {
+			emitDec(c, it.kind, targetByName[it.name], it.b)
+		}
 	}
-	announce(key)
-	if len(crashers) > 0 && !scanning && dies("dec", t.name, hex.EncodeToString(b)) {
-		// something already killed the scanning child: probe every further input in isolation
-		c.Emit(hxlib.Case{Kind: kind + "/crash", Key: key,
-			Input:      map[string]interface{}{"t": "dec", "v": decIn{t.name, hex.EncodeToString(b)}},
-			Nontrivial: true, OracleErr: fmt.Sprintf("decoding %s into %s: ", trunc(b), t.name) + crashMsg})
-		severe++
-		return false
-	}
+}
+
+func emitDec(c *hxlib.Ctx, kind string, t target, b []byte) bool {
 	coq, msg, acc := oracleDec(t, b, !c.OracleOnly)
 	noteSevere(msg)
 	if acc {
@@ -921,7 +950,6 @@ func emitDec(c *hxlib.Ctx, kind string, t target, b []byte) bool {
 func gen(c *hxlib.Ctx) {
 	runtime.GOMAXPROCS(1) // the pooled decoder of one call must be the one the next call gets
 	r := c.Rand
-	crashScan(c)
 
 	// (0) corpus of past failures first
 	files, _ := filepath.Glob(filepath.Join(corpusDir(), "*.json"))
@@ -975,16 +1003,6 @@ func gen(c *hxlib.Ctx) {
 			if big {
 				rs = findBig(t, rs)
 			}
-			ekey := fmt.Sprintf("enc|%s|%d", t.name, rs)
-			if crashers[ekey] {
-				if !scanning {
-					c.Emit(hxlib.Case{Kind: "enc/crash", Key: ekey, Nontrivial: true,
-						Input:     map[string]interface{}{"t": "enc", "v": encIn{t.name, rs, big}},
-						OracleErr: fmt.Sprintf("encoding/decoding a generated %s value (rseed %d) ", t.name, rs) + crashMsg})
-				}
-				continue
-			}
-			announce(ekey)
 			coq, msg, b := oracleEnc(t, rs, big, !c.OracleOnly)
 			c.Emit(hxlib.Case{Kind: "enc/" + t.name, Coq: coq, Key: fmt.Sprintf("%s|%x", t.name, b),
 				Input:      map[string]interface{}{"t": "enc", "v": encIn{t.name, rs, big}},
@@ -1002,11 +1020,8 @@ func gen(c *hxlib.Ctx) {
 	// (2) malformed stream
 	pick := func() target { return targets[r.Intn(len(targets))] }
 	nMal := c.N(5000)
+	var items []malItem
 	for i := 0; i < nMal; i++ {
-		if severe >= severeCap {
-			c.Note("malformed stream cut after %d of %d inputs: %d crashes/hangs/giant allocations/panics", i, nMal, severe)
-			break
-		}
 		s := seeds[r.Intn(len(seeds))]
 		t := s.t
 		if r.Intn(6) == 0 { // another type than the one the bytes were made for
@@ -1066,8 +1081,9 @@ func gen(c *hxlib.Ctx) {
 			b = randomBytes(r)
 			t = pick()
 		}
-		emitDec(c, kind, t, b)
+		items = append(items, malItem{kind, "dec", t.name, b})
 	}
+	runBatch(c, items)
 	// (3) typed.go / typeddict.go: direct oracle only
 	genTyped(c)
 
@@ -1143,7 +1159,24 @@ func dies(kind, name, hx string) bool {
 	return false
 }
 
+// a hard cap on the address space: a decoder that tries to make a buffer of a hostile
+// announced size dies at once (and is caught by the crash scan) instead of zeroing tens of
+// GiB and starving the machine
+func capMemory() {
+	lim := syscall.Rlimit{Cur: 3 << 30, Max: 3 << 30}
+	var cur syscall.Rlimit
+	if syscall.Getrlimit(syscall.RLIMIT_AS, &cur) == nil && cur.Cur != ^uint64(0) && cur.Cur <= lim.Cur {
+		return
+	}
+	_ = syscall.Setrlimit(syscall.RLIMIT_AS, &lim)
+}
+
 func main() {
+	capMemory()
+	if len(os.Args) == 2 && os.Args[1] == "probe-batch" {
+		probeBatch()
+		os.Exit(0)
+	}
 	if len(os.Args) == 5 && os.Args[1] == "probe" {
 		runtime.GOMAXPROCS(1)
 		b, _ := hex.DecodeString(os.Args[4])
